@@ -17,6 +17,7 @@ PROPS = ("C03", "C04", "C05", "C06", "C07", "C08", "C09", "C20")
 class BridgeUnit:
     kind = "bounded"
     cost = 6
+    qualnames = ["ctparse.ctparse"]
 
     def __init__(self, prop):
         self.prop = prop
